@@ -144,7 +144,7 @@ PLANS = {
                      "the checked profile is the deciding one (a forwarder wired to the plain operator only shows with checks on); a coverage "
                      "cell is (layout, event kind, op, operand classes, fits/overflows/div0); non-trivial = operands non-zero",
                 need_ops=["wneg", "wnot", "wbin", "wbit", "wint", "wsh", "weu", "weui", "wsum", "wmeth", "wfrom", "wprog", "ps10", "ps16"]),
-    "C10": dict(module="codecm", streams=[ST_CODEC], profiles=["release", "checked"],
+    "C10": dict(module="codecm", streams=[ST_CODEC], profiles=["release", "checked"], miri=True,
                 rule="one event = one (layout, bit pattern) with encode / encoded_size / max_encoded_len / the integer's own encode / decode of "
                      "the little-endian bytes (built by the driver from the raw pattern, not from the library's output) / decode of every "
                      "proper prefix / decode with trailing junk / le,be,ne byte views and their inverses / from_bits(to_bits) / serde_json "
@@ -238,6 +238,15 @@ def plan(prop, tier, seed):
                                                 "--shard", "%d/%d" % (s, shards)] + st["args"] + st["args_tier"].get(tier, []),
                                            mon=[PY, MON, P.get("module_by_body", {}).get(st["body"], P["module"]), prop, prof] + P.get("mon_args", []),
                                            timeout=1800 if tier == "quick" else 4 * 3600))
+            if P.get("miri") and tier == "thorough":
+                # supplementary UB interpreter over the one path that crosses a dependency with `unsafe`
+                # (SCALE / serde codecs): the same driver under Miri, a few hundred events, same monitor.
+                # A Miri abort makes the run INCONCLUSIVE (it is not what the property states).
+                js.append(dict(kind="pipe", body="codec", label="miri", cwd=os.path.join(ROOT, "harness"),
+                               env={"MIRIFLAGS": "-Zmiri-disable-isolation"},
+                               drv=["cargo", "+nightly", "miri", "run", "--target-dir", os.path.join(ROOT, "harness", "target-miri"),
+                                    "--bin", "codec_qa", "--", "--seed", str(seed), "--n", "3", "--only", "i16.8,u128.64,i8.0,u64.64,i32.0"],
+                               mon=[PY, MON, P["module"], prop, "miri"], timeout=3600))
             if P.get("probes"):
                 js.append(dict(kind="probe", body="probes", profile="release", mon=[PY, MON, P["module"], prop, "release"], timeout=1800))
             return js
